@@ -106,7 +106,7 @@ Proof.
   - inv_some R. exact I.
   - destruct (step c s t) as [s1|] eqn:E; [|discriminate].
     pose proof (run_nocancel_back _ _ _ _ R N) as N1.
-    eapply IH; eauto. eapply Inv5_step; eauto.
+    apply (IH s1 s' ABC); auto. apply (Inv5_step c s t s1); auto.
 Qed.
 
 Lemma C05_error_visible_lemma : forall c i sched s,
@@ -129,7 +129,7 @@ Lemma step_catcher_mono : forall c s t s', step c s t = Some s' ->
 Proof.
   intros c s t s' H. unfold step in H.
   destruct t; break_step H; inv_some H; unfold some_if; simpl; repeat match goal with e : bool |- _ => destruct e end;
-    simpl; try rewrite Heql; simpl; lia.
+    simpl; repeat match goal with E : catC _ = _ |- _ => rewrite E in * end; simpl in *; lia.
 Qed.
 
 Lemma run_catcher_mono : forall c sched s s', run c s sched = Some s' ->
@@ -153,7 +153,7 @@ Lemma step_adds : forall c s t s', step c s t = Some s' ->
 Proof.
   intros c s t s' H [A B]. unfold step in H.
   destruct t; break_step H; inv_some H; unfold some_if; simpl; repeat match goal with e : bool |- _ => destruct e end;
-    simpl; lia.
+    simpl; repeat match goal with E : catC _ = _ |- _ => rewrite E in * end; simpl in *; lia.
 Qed.
 
 Lemma C05_all_errors_kept_lemma : forall c i sched s,
@@ -164,4 +164,271 @@ Proof.
   induction sched as [|t sched IH]; intros s0 I0 s R; simpl in R.
   - inv_some R. exact I0.
   - destruct (step c s0 t) as [s1|] eqn:E; [|discriminate]. eapply IH; [|exact R]. eapply step_adds; eauto.
+Qed.
+
+(* ------------------------------------------------------------------ C06 *)
+Definition Inv6 (c : cfg) (s : state) : Prop :=
+  (rd s = RD_done -> ipc_cl s = true) /\
+  (rc s = RC_done -> pipe_cl s = true) /\
+  (w s = W_done -> layered c = true -> dq_cl s = true) /\
+  (out_cl s = false -> sp s <> S_none) /\
+  (layered c = false -> w s = W_done /\ sp s = S_none) /\
+  length (pipe s) <= c_pcap c /\ dq s <= c_dcap c.
+
+Lemma Inv6_init : forall c i, Inv6 c (init c i).
+Proof.
+  intros c i. unfold Inv6, init; simpl. destruct (layered c); repeat split; try discriminate; auto; lia.
+Qed.
+
+Lemma Inv6_step : forall c s t s', c_abc c = true -> Inv6 c s -> step c s t = Some s' -> Inv6 c s'.
+Proof.
+  intros c s t s' ABC I H.
+  pose proof (wold_abc c ABC) as WO.
+  destruct I as (I1 & I2 & I3 & I4 & I5 & I6 & I7).
+  unfold step, rd_fin, rc_fin, w_fin in H. rewrite ?ABC, ?WO in H.
+  destruct (layered c) eqn:L;
+  destruct t; break_step H; inv_some H; unfold Inv6; simpl in *; rewrite ?L in *;
+    repeat match goal with
+           | E : rd _ = _ |- _ => rewrite E in *
+           | E : rc _ = _ |- _ => rewrite E in *
+           | E : w _ = _ |- _ => rewrite E in *
+           | E : sp _ = _ |- _ => rewrite E in *
+           | E : pipe _ = _ |- _ => rewrite E in *
+           | E : dq _ = _ |- _ => rewrite E in *
+           | E : (_ <? _) = true |- _ => apply Nat.ltb_lt in E
+           end; simpl in *; rewrite ?app_length; simpl;
+    try solve [ intuition (try congruence; try lia) ].
+Qed.
+
+Lemma Inv6_run : forall c sched s s', c_abc c = true -> Inv6 c s -> run c s sched = Some s' -> Inv6 c s'.
+Proof.
+  induction sched as [|t sched IH]; intros s s' ABC I R; simpl in R.
+  - inv_some R. exact I.
+  - destruct (step c s t) as [s1|] eqn:E; [|discriminate].
+    apply (IH s1 s' ABC); auto. apply (Inv6_step c s t s1); auto.
+Qed.
+
+Lemma Inv6_reachable : forall c s, c_abc c = true -> reachable c s -> Inv6 c s.
+Proof. intros c s ABC (i & sched & R). eapply Inv6_run; eauto. apply Inv6_init. Qed.
+
+Definition enabled (c : cfg) (s : state) (t : tid) : Prop := step c s t <> None.
+
+Lemma no_deadlock_inv : forall c s,
+  c_abc c = true -> Inv6 c s -> cancelled c s -> ~ all_done s ->
+  exists g, goroutine g = true /\ step c s g <> None.
+Proof.
+  intros c s ABC I (DC & DI) ND.
+  pose proof (wold_abc c ABC) as WO.
+  destruct I as (I1 & I2 & I3 & I4 & I5 & I6 & I7).
+  unfold all_done, all_doneb in ND.
+  assert (DS : layered c = true -> done_S s = true).
+  { intros L. specialize (DI L). unfold done_S, done_I in *. destruct (fS s), (fI s), (fP s); simpl in *; auto. }
+  (* RC first: everything downstream waits for it *)
+  destruct (rc s) eqn:RC.
+  - (* RC_recv *)
+    destruct (rd s) eqn:RD.
+    + exists T_RD. split; [reflexivity|]. unfold step. rewrite RD. destruct (docs s); discriminate.
+    + exists T_RC. split; [reflexivity|]. unfold step. rewrite RC, RD. discriminate.
+    + exists T_RD. split; [reflexivity|]. unfold step. rewrite RD. discriminate.
+    + exists T_RD. split; [reflexivity|]. unfold step. rewrite RD. discriminate.
+    + exists T_RC. split; [reflexivity|]. unfold step. rewrite RC, RD, (I1 eq_refl). discriminate.
+  - exists T_RCc. split; [reflexivity|]. unfold step. rewrite RC, DC. discriminate.
+  - exists T_RC. split; [reflexivity|]. unfold step. rewrite RC. discriminate.
+  - exists T_RC. split; [reflexivity|]. unfold step. rewrite RC. discriminate.
+  - (* RC_done *)
+    specialize (I2 eq_refl).
+    destruct (rd s) eqn:RD.
+    + exists T_RD. split; [reflexivity|]. unfold step. rewrite RD. destruct (docs s); discriminate.
+    + exists T_RDc. split; [reflexivity|]. unfold step. rewrite RD, DC. discriminate.
+    + exists T_RD. split; [reflexivity|]. unfold step. rewrite RD. discriminate.
+    + exists T_RD. split; [reflexivity|]. unfold step. rewrite RD. discriminate.
+    + (* RD_done: the worker side *)
+      destruct (layered c) eqn:L.
+      2:{ destruct (I5 eq_refl) as [WD SN]. rewrite WD, SN in ND. exfalso; apply ND; reflexivity. }
+      specialize (DI eq_refl). specialize (DS eq_refl).
+      destruct (w s) eqn:W.
+      * exists T_W. split; [reflexivity|]. unfold step. rewrite W, I2.
+        destruct (pipe s); [discriminate|]. destruct (is_matrix c); discriminate.
+      * (* W_snext *)
+        destruct (oq s) eqn:OQ.
+        -- destruct (out_cl s) eqn:OC.
+           ++ exists T_W. split; [reflexivity|]. unfold step. rewrite W, OQ, OC. discriminate.
+           ++ specialize (I4 eq_refl). destruct (sp s) as [|k] eqn:SP; [congruence|].
+              destruct k.
+              ** exists T_S. split; [reflexivity|]. unfold step. rewrite SP. discriminate.
+              ** exists T_Sc. split; [reflexivity|]. unfold step. rewrite SP, DS. discriminate.
+        -- exists T_W. split; [reflexivity|]. unfold step. rewrite W, OQ. discriminate.
+      * exists T_Wc. split; [reflexivity|]. unfold step. rewrite W, DI. discriminate.
+      * exists T_W. split; [reflexivity|]. unfold step. rewrite W. discriminate.
+      * exists T_Wc. split; [reflexivity|]. unfold step. rewrite W, DI. discriminate.
+      * exists T_W. split; [reflexivity|]. unfold step. rewrite W. discriminate.
+      * exists T_W. split; [reflexivity|]. unfold step. rewrite W. discriminate.
+      * exists T_W. split; [reflexivity|]. unfold step. rewrite W. discriminate.
+      * (* W_done: only the streamer can be left *)
+        destruct (sp s) as [|k] eqn:SP; [exfalso; apply ND; reflexivity|].
+        destruct k.
+        -- exists T_S. split; [reflexivity|]. unfold step. rewrite SP. discriminate.
+        -- exists T_Sc. split; [reflexivity|]. unfold step. rewrite SP, DS. discriminate.
+Qed.
+
+(* ---- bounded work *)
+Lemma sumw_app : forall A (f : A -> nat) a b, sumw f (a ++ b) = sumw f a + sumw f b.
+Proof. induction a; simpl; intros; auto. rewrite IHa. lia. Qed.
+
+Definition cost (t : tid) : nat := if goroutine t then 1 else 0.
+
+Lemma step_measure : forall c s t s', step c s t = Some s' -> cost t + measure c s' <= measure c s.
+Proof.
+  intros c s t s' H. unfold step, rd_fin, rc_fin, w_fin, wold in H.
+  destruct (c_abc c) eqn:ABC; destruct (is_matrix c) eqn:M;
+  destruct t; break_step H; inv_some H; unfold measure, cost, rank_rd, rank_rc, rank_w, rank_s, wold, dw, hw, pw;
+    simpl; rewrite ?ABC, ?M; simpl;
+    repeat match goal with
+           | E : rd _ = _ |- _ => rewrite E
+           | E : rc _ = _ |- _ => rewrite E
+           | E : w _ = _ |- _ => rewrite E
+           | E : sp _ = _ |- _ => rewrite E
+           | E : pipe _ = _ |- _ => rewrite E
+           | E : docs _ = _ |- _ => rewrite E
+           | E : oq _ = _ |- _ => rewrite E
+           end; simpl; rewrite ?sumw_app; unfold hw, pw; simpl; try lia.
+Qed.
+
+Lemma run_measure : forall c sched s s', run c s sched = Some s' ->
+  length (filter goroutine sched) + measure c s' <= measure c s.
+Proof.
+  induction sched as [|t sched IH]; intros s s' R; simpl in R.
+  - inv_some R. simpl. lia.
+  - destruct (step c s t) as [s1|] eqn:E; [|discriminate].
+    apply step_measure in E. apply IH in R. unfold cost in E. simpl. destruct (goroutine t); simpl; lia.
+Qed.
+
+Lemma run_flags : forall c sched s s', run c s sched = Some s' -> flags_le s s'.
+Proof.
+  induction sched as [|t sched IH]; intros s s' R; simpl in R.
+  - inv_some R. unfold flags_le; auto.
+  - destruct (step c s t) as [s1|] eqn:E; [|discriminate].
+    apply step_flags in E. apply IH in R. unfold flags_le in *. intuition.
+Qed.
+
+Lemma cancelled_run : forall c sched s s', run c s sched = Some s' -> cancelled c s -> cancelled c s'.
+Proof.
+  intros c sched s s' R (DC & DI). apply run_flags in R. destruct R as (A & B & C).
+  unfold cancelled, done_C, done_I in *.
+  split.
+  - destruct (fC s); [rewrite C; auto|]. destruct (fI s); [rewrite B; auto; destruct (fC s'); auto|].
+    simpl in DC. rewrite A; auto. destruct (fC s'), (fI s'); auto.
+  - intros L. specialize (DI L). destruct (fI s); [rewrite B; auto|]. simpl in DI. rewrite A; auto.
+    destruct (fI s'); auto.
+Qed.
+
+Lemma quiescent_is_done : forall c s sched s',
+  c_abc c = true -> reachable c s -> cancelled c s -> run c s sched = Some s' ->
+  (forall g, goroutine g = true -> step c s' g = None) -> all_done s'.
+Proof.
+  intros c s sched s' ABC RE CA R Q.
+  assert (I : Inv6 c s') by (eapply Inv6_run; eauto; apply Inv6_reachable; auto).
+  pose proof (cancelled_run _ _ _ _ R CA) as CA'.
+  destruct (all_doneb s') eqn:D; [exact D|].
+  destruct (no_deadlock_inv c s' ABC I CA') as (g & G & E).
+  - unfold all_done. rewrite D. discriminate.
+  - rewrite (Q g G) in E. congruence.
+Qed.
+
+(* ---- Next after the goroutines are gone *)
+Lemma all_done_step : forall c s t s', all_done s -> step c s t = Some s' ->
+  all_done s' /\ got s' + buffered c s' = got s + buffered c s.
+Proof.
+  intros c s t s' D H. unfold all_done, all_doneb in D.
+  destruct (rd s) eqn:RD; try discriminate. destruct (rc s) eqn:RC; try discriminate.
+  destruct (w s) eqn:W; try discriminate. destruct (sp s) eqn:SP; try discriminate.
+  unfold step in H. rewrite ?RD, ?RC, ?W, ?SP in H.
+  destruct t; try discriminate; break_step H; inv_some H; unfold all_done, all_doneb, buffered; simpl;
+    rewrite ?RD, ?RC, ?W, ?SP; simpl;
+    repeat match goal with
+           | E : pipe _ = _ |- _ => rewrite E
+           | E : dq _ = _ |- _ => rewrite E
+           | E : layered _ = _ |- _ => rewrite E
+           end; simpl; try (split; [reflexivity|lia]);
+    destruct (layered c); simpl; split; auto; lia.
+Qed.
+
+Lemma next_after_done : forall c sched s s', all_done s -> run c s sched = Some s' ->
+  all_done s' /\ got s' + buffered c s' = got s + buffered c s.
+Proof.
+  induction sched as [|t sched IH]; intros s s' D R; simpl in R.
+  - inv_some R. auto.
+  - destruct (step c s t) as [s1|] eqn:E; [|discriminate].
+    destruct (all_done_step _ _ _ _ D E) as [D1 Q1]. destruct (IH _ _ D1 R) as [D2 Q2]. split; auto; lia.
+Qed.
+
+Lemma buffered_le_cap : forall c s, Inv6 c s -> buffered c s <= cap c.
+Proof. intros c s (_ & _ & _ & _ & _ & P & Q). unfold buffered, cap. destruct (layered c); lia. Qed.
+
+Lemma next_never_blocks : forall c s, Inv6 c s -> all_done s -> cn s = CN_run -> step c s T_CN <> None.
+Proof.
+  intros c s (I1 & I2 & I3 & _) D N. unfold all_done, all_doneb in D.
+  destruct (rd s) eqn:RD; try discriminate. destruct (rc s) eqn:RC; try discriminate.
+  destruct (w s) eqn:W; try discriminate.
+  unfold step. rewrite N. destruct (layered c) eqn:L.
+  - destruct (dq s); [|discriminate]. rewrite (I3 eq_refl eq_refl). discriminate.
+  - destruct (pipe s); [|discriminate]. rewrite (I2 eq_refl). discriminate.
+Qed.
+
+Lemma close_idem : forall c s s1 t, (t = T_Close \/ t = T_Cancel) -> step c s t = Some s1 -> step c s1 t = Some s1.
+Proof.
+  intros c s s1 t [T|T] H; subst t; unfold step in *.
+  - destruct (c_kind c); inv_some H; unfold set_flags; simpl; try reflexivity.
+    destruct (c_mclose c); reflexivity.
+  - inv_some H. reflexivity.
+Qed.
+
+(* ------------------------------------------------------------------ what the two repairs fixed (witnesses) *)
+Definition cfg_old_order (k : kind) : cfg :=
+  {| c_kind := k; c_pcap := 2; c_dcap := match k with KMatrix => 25 | _ => 100 end; c_scap := 100;
+     c_abc := false; c_mclose := true |}.
+Definition in_readerr : input := {| i_docs := []; i_fin := ReadError |}.
+Definition sched_lost_chunk : list tid := [T_RD; T_RD; T_RC; T_RC; T_CN].
+Definition sched_lost_matrix : list tid := [T_RD; T_RD; T_RC; T_RC; T_W; T_W; T_CN].
+
+Lemma order_matters_chunk :
+  exists s, run (cfg_old_order KChunk) (init (cfg_old_order KChunk) in_readerr) sched_lost_chunk = Some s /\
+            nocancel s /\ consumer_saw_end s /\ has_failure in_readerr /\
+            errors_registered (cfg_old_order KChunk) s = 0.
+Proof. eexists. split; [vm_compute; reflexivity|]. unfold nocancel, consumer_saw_end, has_failure; simpl. auto 10. Qed.
+
+Lemma order_matters_matrix :
+  exists s, run (cfg_old_order KMatrix) (init (cfg_old_order KMatrix) in_readerr) sched_lost_matrix = Some s /\
+            nocancel s /\ consumer_saw_end s /\ has_failure in_readerr /\
+            errors_registered (cfg_old_order KMatrix) s = 0.
+Proof. eexists. split; [vm_compute; reflexivity|]. unfold nocancel, consumer_saw_end, has_failure; simpl. auto 10. Qed.
+
+Definition cfg_old_matrix_close : cfg :=
+  {| c_kind := KMatrix; c_pcap := 2; c_dcap := 25; c_scap := 100; c_abc := true; c_mclose := false |}.
+Definition in_26_chunks : input := {| i_docs := repeat (GoodChunk 0) 26; i_fin := CleanEOF |}.
+Definition sched_matrix_stuck : list tid :=
+  concat (repeat [T_RD; T_RC; T_RC; T_W; T_W] 25) ++ [T_RD; T_RC; T_RC; T_W] ++ [T_Close] ++
+  [T_RD; T_RD; T_RD; T_RC; T_RC; T_RC].
+
+Lemma matrix_old_stuck :
+  exists s, run cfg_old_matrix_close (init cfg_old_matrix_close in_26_chunks) sched_matrix_stuck = Some s /\
+            closed s = true /\ done_C s = true /\ w s = W_msend /\ dq s = c_dcap cfg_old_matrix_close /\
+            ~ all_done s /\
+            forall g, goroutine g = true -> step cfg_old_matrix_close s g = None.
+Proof.
+  eexists. split; [vm_compute; reflexivity|].
+  repeat split; try (intro; discriminate).
+  intros g G. destruct g; try discriminate G; vm_compute; reflexivity.
+Qed.
+
+Lemma close_cancels_lemma : forall (c : cfg) (s s1 : state) (sched : list tid) (s' : state),
+  c_mclose c = true ->
+  (step c s T_Close = Some s1 \/ step c s T_Cancel = Some s1) ->
+  run c s1 sched = Some s' -> cancelled c s'.
+Proof.
+  intros c s s1 sched s' MC H R. eapply cancelled_run; [exact R|].
+  unfold cancelled, done_C, done_I, layered. unfold step in H. rewrite MC in H.
+  destruct H as [H|H].
+  - destruct (c_kind c); inv_some H; simpl; split; auto; discriminate.
+  - inv_some H. simpl. split; intros; destruct (fC s), (fI s); auto.
 Qed.
